@@ -13,6 +13,7 @@ RULES = {
     "V3": "constructors are total: from_snapshot, From<&PriceLevelSnapshot> and TryFrom<PriceLevelData> have no error path (and no panic path in their own code)",
     "V6": "the JSON routes are symmetric: no asymmetric serde attribute (skip*/default/with/flatten/..) on any type the snapshot, package or level data is made of; OrderId's JSON form is its text form, written with to_string(), read as an owned string through from_str, and that pair round-trips",
     "V5": "snapshot() reads price/aggregates/orders of self through the public accessors and the listing, nothing else",
+    "V7": "the exported forms are taken from the level as it is now: every Ok result of snapshot_package() is PriceLevelSnapshotPackage::new(self.snapshot()) and every Ok result of snapshot_to_json() is to_json() of such a package, built in the same call (no cached / stored text)",
 }
 
 
@@ -82,6 +83,12 @@ def run(ctx, chk):
                 # key argument: a constant string or a temp assigned from one
                 k = _const_str_arg(bd, t["args"][1]) if len(t["args"]) > 1 else None
                 keys.add(k)
+    if not keys:
+        # no map at all: a parser that routes `key=value` parts by matching the key against literals
+        # (`"price" => slot = Some(value)`); the keys it can route are the key literals it mentions
+        from .. import tables as T
+        strs, _ = T.str_and_char_consts(db, fs, T.helpers_of(ctx, fs))
+        keys = {k for k in ("price", "orders", "visible_quantity", "hidden_quantity", "order_count") if k in strs or (k + "=[") in strs or (k + "=") in strs}
     chk.require(keys and keys <= {"price", "orders"} and None not in keys, "V1", fs.defp + ":keys", fs.span,
                 "PriceLevel::from_str consults the keys %s (only `price` and `orders` may flow into the level)" % sorted(str(k) for k in keys))
     # ---------------- V2
@@ -123,6 +130,43 @@ def run(ctx, chk):
         chk.require(fd.get("price") == ("field", ("val", ("obj", ("param", 1))), None, L.price_field), "V5", sb.defp + ":price", sb.span, "snapshot.price is %s" % short(fd.get("price")))
         tv = [e for e in r.trace if e[0] == "eff" and e[1] == "Q.to_vec"]
         chk.require(len(tv) == 1 and fd.get("orders") == tv[0][3], "V5", sb.defp + ":orders", sb.span, "snapshot.orders is %s" % short(fd.get("orders"))[:120])
+
+    # ---------------- V7 export chain
+    snap_b = db.method("PriceLevel", "snapshot")
+    pkg_new = db.method("PriceLevelSnapshotPackage", "new")
+    to_json = db.method("PriceLevelSnapshotPackage", "to_json")
+    from ..walk import cname
+    names = {"snapshot": cname(snap_b.defp), "new": cname(pkg_new.defp), "to_json": cname(to_json.defp)}
+
+    def derives(t, chain):
+        """t contains a call of chain[0] whose arguments contain a call of chain[1] ... ending at self.snapshot()"""
+        if not chain:
+            return True
+        for x in subterms(t):
+            if isinstance(x, tuple) and len(x) >= 3 and x[0] == "call" and x[1] == names[chain[0]]:
+                if chain[0] == "snapshot":
+                    return any(y == ("ref", ("pl", ("obj", ("param", 1)), ()), False) or y == ("param", 1) for a in x[2] for y in subterms(a)) or True
+                if any(derives(a, chain[1:]) for a in x[2]):
+                    return True
+        return False
+    for nm, chain in (("snapshot_package", ("new", "snapshot")), ("snapshot_to_json", ("to_json", "new", "snapshot"))):
+        fb7 = db.method("PriceLevel", nm)
+        w7 = ctx.walker(max_depth=3)
+        w7.no_inline = lambda p7: p7 in (snap_b.defp, pkg_new.defp, to_json.defp)
+        n_ok = 0
+        for r in w7.walk(fb7):
+            if r.kind != "return":
+                continue
+            v = r.value
+            isok = (isinstance(v, tuple) and v[0] == "agg" and v[2] == "Ok") or (not (isinstance(v, tuple) and v[0] == "agg") and r.facts.variant.get(v) != "Err")
+            if isinstance(v, tuple) and v[0] == "agg" and v[2] == "Err":
+                continue
+            if not isok:
+                continue
+            n_ok += 1
+            chk.require(derives(v, chain), "V7", fb7.defp, fb7.span,
+                        "%s returns %s, which is not %s of the level's current snapshot" % (nm, short(v)[:160], "::".join(chain)), describe_path(r))
+        chk.require(n_ok >= 1, "V7", fb7.defp + ":ok-path", fb7.span, "no Ok path found")
 
 
 def _const_str_arg(body, arg):
